@@ -815,15 +815,18 @@ Proof.
   intros H1 H3 H4. cbn [cache_step]. rewrite H1, H3, H4. reflexivity.
 Qed.
 
-(* CacheOnReadFs.OpenFile: copyFileToLayer opens the base with the caller's flags less O_APPEND (since the
-   fix, copyfiletolayer_clears_append = 1); its error is the result *)
-Lemma cache_openfile_reports dur now sb sl tbl name flag perm sb1 sl1 cs fi sb2 sl2 ce :
+(* CacheOnReadFs.OpenFile: the base is Stat-ed first (since the fix, cache_openfile_dir_mkdir = 1: a directory is
+   made in the layer, not copied); for anything that is not a directory copyFileToLayer opens the base with the
+   caller's flags less O_APPEND (since the fix, copyfiletolayer_clears_append = 1); its error is the result *)
+Lemma cache_openfile_dir_mkdir_is_1 : cache_openfile_dir_mkdir = 1. Proof. reflexivity. Qed.
+Lemma cache_openfile_reports dur now sb sl tbl name flag perm sb1 sl1 cs fi sb1' rs sb2 sl2 ce :
   cache_status bstep lstep dur now sb sl name = (sb1, sl1, cs, fi, None) -> cs = CMiss \/ cs = CStale ->
-  copy_to_layer_with bstep lstep sb1 sl1 name (OpenFile name (Z.land flag (Z.lnot o_append)) perm) = (sb2, sl2, Some ce) ->
+  bstep sb1 (Stat name) = (sb1', rs) -> (forall bfi, rs = RInfo bfi -> fi_dir bfi = false) ->
+  copy_to_layer_with bstep lstep sb1' sl1 name (OpenFile name (Z.land flag (Z.lnot o_append)) perm) = (sb2, sl2, Some ce) ->
   cache_step bstep lstep dur now (sb, sl, tbl) (OpenFile name flag perm) = ((sb2, sl2, tbl), RErr ce).
 Proof.
-  intros H1 Hcs H4. cbn [cache_step]. rewrite H1, copyfiletolayer_clears_append_is_1. cbn [Z.eqb Pos.eqb].
-  destruct Hcs as [->| ->]; rewrite H4; reflexivity.
+  intros H1 Hcs Hst Hnd H4. cbn [cache_step]. rewrite H1, copyfiletolayer_clears_append_is_1, cache_openfile_dir_mkdir_is_1. cbn [Z.eqb Pos.eqb].
+  destruct Hcs as [->| ->]; rewrite Hst; (destruct rs; try (rewrite H4; reflexivity); rewrite (Hnd fi0 eq_refl), H4; reflexivity).
 Qed.
 
 (* the read-only OpenFile of the callers stays read-only: O_RDONLY &^ O_APPEND = O_RDONLY *)
